@@ -24,7 +24,10 @@ BINOPS = {
 class Style:
     """Printing options: redundant parentheses, keyword case, token separator."""
 
-    def __init__(self, parens=False, kwcase=0, sep=' ', idcase=0):
+    def __init__(self, parens=False, kwcase=0, sep=' ', idcase=0, tight=False):
+        # tight: no whitespace around the symbolic operators (a-b, a<=b): whitespace between tokens is optional
+        # wherever the tokens stay apart
+        self.tight = tight
         self.parens = parens
         self.kwcase = kwcase
         self.sep = sep
@@ -139,6 +142,8 @@ def _expr(node, st):
             # left-associative: the right operand needs the next level
             left = expr(node.left, st, p)
             right = expr(node.right, st, p + 1)
+        if st.tight and not sym[0].isalpha():
+            return left + sym + right
         return _join(st, left, sym, right)
     if isinstance(node, ast.Neg):
         inner = expr(node.operand, st, P_UNARY)
@@ -149,7 +154,7 @@ def _expr(node, st):
     if isinstance(node, ast.Subscript):
         return _expr(node.operand, st) + '[' + literal(node.key, st) + ']'
     if isinstance(node, ast.Function):
-        args = ', '.join('*' if isinstance(o, ast.Asterisk) else expr(o, Style(False, st.kwcase, st.sep, st.idcase))
+        args = ', '.join('*' if isinstance(o, ast.Asterisk) else expr(o, Style(False, st.kwcase, st.sep, st.idcase, st.tight))
                          for o in node.operands)
         return f'{st.ident(node.fname)}({args})'
     if isinstance(node, ast.Select):
